@@ -15,8 +15,6 @@ import subprocess
 
 import lib
 
-KF_DETACHED_REASON = "panic-after-detached-handler"
-
 INFRA = ("malformed-graph", "bad-event-line", "trace-truncated", "end-without-graph",
          "bad-sim-line")
 
@@ -170,25 +168,6 @@ def account(ctx, results):
                     fate = min(fate, first.get(("start", awaited), 1 << 60))
                 if t0 is not None:
                     ctx.histogram["steer:hold-engaged" if t0 < fate else "steer:fate-seen-before-hold"] += 1
-        # finding KF-C16-1: a handler accepted into an already failed context runs detached from its owner
-        roles = {l.split()[1]: l.split()[2] for l in case if l.startswith("task ")}
-        closed_at = {e[2]: int(e[0]) for e in evs if e[1] == "done"}
-        owner_of = {}
-        for l in case:
-            if l.startswith("try "):
-                f = l.split()
-                o = f[2].split("=")[1].split(":")[0]
-                for h in f[4:7]:
-                    h = h.split("=")[1]
-                    if h != "-":
-                        owner_of[h] = o
-        for e in evs:
-            if e[1] == "hacc" and e[2] in owner_of and owner_of[e[2]] in closed_at:
-                if closed_at.get(e[2], 1 << 60) > closed_at[owner_of[e[2]]]:
-                    ctx.histogram["finding:KF-C16-1-handler-open-when-owner-closed"] += 1
-                    ctx.extra.setdefault("kf_c16_1_cases", [])
-                    if len(ctx.extra["kf_c16_1_cases"]) < 3:
-                        ctx.extra["kf_c16_1_cases"].append(case[0].strip())
         fails = any(e[1] == "done" and e[-1] == "fail" for e in evs)
         rej = any(e[1] == "rej" for e in evs)
         ctx.note_case(case_key(case), nontrivial=nt and len(evs) > 4,
@@ -215,18 +194,6 @@ def report_rejects(ctx, go, model, results, prop, limit=3):
         if verdict == "accept":
             continue
         reason = " ".join(verdict.split()[2:])
-        if reason == KF_DETACHED_REASON:
-            # known finding KF-C16-1 (known_findings.d/C16.json): the driver found a handler that was accepted into an
-            # already failed context and was still open when its owner closed, and then the process panicked
-            ctx.histogram["finding:KF-C16-1-panic-after-detached-handler"] += 1
-            if not ctx.extra.get("kf_c16_1_panic"):
-                ctx.extra["kf_c16_1_panic"] = dict(case=[l.strip() for l in case],
-                                                   trace=[l.strip() for l in trace if l[:1].isdigit()][-30:], monitor=verdict)
-                ctx.known("KF-C16-1", "a handler accepted into an already failed context runs detached from its owner "
-                          "(scope.NewChild does not register a child of a done scope); when it closes after its owner its "
-                          "events reach a closed scope: nil dereference in a bare goroutine, the process dies (%s, case %s)"
-                          % (verdict, case[0].split()[1]))
-            continue
         if reason == "event-about-unknown-task":
             # The implementation ran a task the submitted graph does not contain (e.g. a handler registered
             # under another name).  That is a deviation from the model by itself; to see whether the
@@ -295,7 +262,9 @@ def run_family(ctx, prop, family, n_quick, n_thorough, corpus_props, steered=Non
     cases = []
     for cp in corpus_props:
         for f in sorted(glob.glob(os.path.join(lib.ROOT, "corpus", cp, "*.ops"))):
-            cases += split_cases(f)
+            # `*.rep.ops`: schedule-dependent witnesses of past defects, replayed many times
+            reps = ctx.pick(25, 3000) if f.endswith(".rep.ops") else 1
+            cases += split_cases(f) * reps
     ncorpus = len(cases)
     gen = ctx.path("gen.cases")
     rc, err = ctx.run([go, "gen", family, str(n)], stdout=gen, timeout=600)
@@ -312,7 +281,7 @@ def run_family(ctx, prop, family, n_quick, n_thorough, corpus_props, steered=Non
             ctx.fatal("generator (steered family) failed: " + err[-500:])
         genstats(ctx, err)
         cases += split_cases(gens)
-    ctx.rule = ("%d corpus cases + %d generated task graphs (family %s, VERIF_SEED=%d): random DAGs of 1-16 tasks with wait lists over "
+    ctx.rule = ("%d corpus cases (schedule-dependent witnesses `*.rep.ops` repeated 25 / 3000 times) + %d generated task graphs (family %s, VERIF_SEED=%d): random DAGs of 1-16 tasks with wait lists over "
                 "earlier siblings (8%% deliberately invalid: unknown / later / own name), failing commands in any subset of tasks, "
                 "nested pip:run submissions and pip:try blocks to depth 3, handler subsets and failing handlers enumerated, bodies "
                 "blocked on harness gates released in PRNG order so that tasks overlap; each case is executed by the real app and "
@@ -351,10 +320,6 @@ def run_family(ctx, prop, family, n_quick, n_thorough, corpus_props, steered=Non
         ctx.violation("impl-vs-model", "the compiled Lean model produced a trace its own monitor rejects (contradicts theorem "
                       "model_runs_accepted): %s" % bad[0], concrete=False)
     ctx.extra["cases"] = dict(corpus=ncorpus, generated=n, steered=nsteer, rejected=nrej)
-    if ctx.histogram.get("finding:KF-C16-1-handler-open-when-owner-closed"):
-        ctx.notes.append("finding KF-C16-1 observed in %d traces (a handler accepted into an already failed context is still "
-                         "open when its owner closes; tolerated by the clause `acceptedAfterCause`, reported)"
-                         % ctx.histogram["finding:KF-C16-1-handler-open-when-owner-closed"])
     if failed:
         def searcher():
             if nrej:
